@@ -549,6 +549,9 @@ func (e *env) queryState(rng *rand.Rand, exhaustive bool) {
 			}
 		}
 		e.commonAncestorUnknown(rng, nodes[rng.Intn(len(nodes))])
+		if !e.failed {
+			e.concurrentReads(rng, nodes)
+		}
 	} else {
 		for i := 0; i < 30 && !e.failed; i++ {
 			e.byHash(nodes[rng.Intn(len(nodes))])
@@ -573,6 +576,9 @@ func (e *env) queryState(rng *rand.Rand, exhaustive bool) {
 			e.commonAncestor(ns)
 		}
 		e.commonAncestorUnknown(rng, nodes[rng.Intn(len(nodes))])
+		if !e.failed {
+			e.concurrentReads(rng, nodes)
+		}
 	}
 	if !e.failed {
 		e.checkDigest("end of state")
@@ -580,7 +586,7 @@ func (e *env) queryState(rng *rand.Rand, exhaustive bool) {
 }
 
 func body(r *ev.Run) {
-	r.Rule("states = end (after a restart in a quarter of them), one mid-history point and half of the reorganisation points of seeded random histories (forks of any depth, several stale branches, orphan chains, late parents, reorganisations, zero-work headers). Plus long stores (prefix of 30/800/1500 headers, then a reorganisation over 2050/700/520 heights) queried by sample and for their farthest pairs (tip / stale tip against genesis and the first blocks). Small states (<=12 headers): ALL queries — every hash for header/state, every ordered pair for ancestors, every multiset of size <=3 for common ancestor, every (height,count) window over -1..max+2 x 0..5, windows with a negative start or length, windows whose start or length is 2^31-1 / 2^31 / 2^32 / 2^32+1 / 2^40; large states (up to 120 headers): seeded samples. Oracle = reference model with weakest readings (by-height: subset of stored-in-window and superset of longest-in-window; ancestors: contains every strictly-between header, nothing off the path, no duplicates, endpoints optional, order free; unrelated headers => never 200, and the same-chain error whenever the would-be ancestor is not above the header; common ancestor asserted for lists with minimum height >= 1). Headers-table digest compared around reads. evaluations = states queried; distinct = distinct (endpoint, relation/state class) cells; non-trivial = all.")
+	r.Rule("states = end (after a restart in a quarter of them), one mid-history point and half of the reorganisation points of seeded random histories (forks of any depth, several stale branches, orphan chains, late parents, reorganisations, zero-work headers). Plus long stores (prefix of 30/800/1500 headers, then a reorganisation over 2050/700/520 heights) queried by sample and for their farthest pairs (tip / stale tip against genesis and the first blocks). Small states (<=12 headers): ALL queries — every hash for header/state, every ordered pair for ancestors, every multiset of size <=3 for common ancestor, every (height,count) window over -1..max+2 x 0..5, windows with a negative start or length, windows whose start or length is 2^31-1 / 2^31 / 2^32 / 2^32+1 / 2^40; large states (up to 120 headers): seeded samples. Oracle = reference model with weakest readings (by-height: subset of stored-in-window and superset of longest-in-window; ancestors: contains every strictly-between header, nothing off the path, no duplicates, endpoints optional, order free; unrelated headers => never 200, and the same-chain error whenever the would-be ancestor is not above the header; common ancestor asserted for lists with minimum height >= 1). Per state, four clients ask a handful of list queries at the same moment, 120 times each: every answer is byte for byte the one given when asked alone. Headers-table digest compared around reads. evaluations = states queried; distinct = distinct (endpoint, relation/state class) cells; non-trivial = all.")
 	r.Assume("reference model transcribes the statement", "queries whose hash-linked ancestry crosses a parent stored after its child are skipped (stored heights unrelated; statement silent)", "5xx on degenerate arguments are C16's subject, not asserted here")
 	r.Require("ancestors_descendant", 200)
 	r.Require("ancestors_unrelated-equal-height", 20)
